@@ -234,6 +234,11 @@ def k_analytic(params):
     for rung, nn in enumerate(params["ladder"]):
         if grid == "uniform":
             tt = np.linspace(t0, t1, nn + 1)
+        elif grid == "jagged":
+            # strongly non-uniform grid: neighbouring intervals of very different length, no period-2 pattern
+            mult = np.array([1.0, 3.0, 0.5, 2.0, 0.7])
+            dts = np.array([mult[i % 5] for i in range(nn)])
+            tt = t0 + (t1 - t0) * np.concatenate(([0.0], np.cumsum(dts))) / float(np.sum(dts))
         else:
             u = np.linspace(0.0, 1.0, nn + 1)
             tt = t0 + (t1 - t0) * (u + 0.15 * np.sin(2 * math.pi * u) / (2 * math.pi))  # smooth non-uniform grid
@@ -251,6 +256,28 @@ def k_analytic(params):
         ex = max([float(np.max(np.abs(np.asarray(h.state) - _curve(np.array([r]), w)[0]))) for h, r in zip(hits, roots)], default=0.0)
         errs_t.append(et)
         errs_x.append(ex)
+        # per-hit bounds from the length of the hit's own sample interval (linear interpolation error of that interval)
+        d_ang0 = math.acos(c / R) if abs(c) < R else 0.0
+        slope0 = max(R * w * abs(math.sin(d_ang0)), 1e-9)
+        for hobj, a, b in zip(hits, th, roots):
+            kb = int(np.searchsorted(tt, b, side="right") - 1)
+            kb = min(max(kb, 0), len(tt) - 2)
+            hk = float(tt[kb + 1] - tt[kb])
+            whk = w * hk
+            edge_k = kb < 2 or kb > len(tt) - 4
+            if interp == "cubic" and grid == "uniform" and not edge_k:
+                ge = R * (0.1 * whk ** 3 + whk ** 4 / 384.0)
+                xe = 1.2 * (0.1 * whk ** 3 + whk ** 4 / 384.0)
+            else:
+                ge = R * whk * whk / 8.0
+                xe = 1.2 * whk * whk / 8.0
+            btk = 2.0 * ge / slope0 + 1e-12
+            bxk = 2.0 * (xe + 1.12 * w * ge / slope0) + 1e-12
+            exk = float(np.max(np.abs(np.asarray(hobj.state) - _curve(np.array([b]), w)[0])))
+            if abs(a - b) > btk or exk > bxk:
+                viol.append(violation(key0 + "/local_error", "n=%d: hit at t=%.9g (exact %.9g) in a sample interval of length %.3g: time error %.3e (bound %.3e), state error %.3e (bound %.3e) [normal=%s c=%g dir=%s refine=%d %s]" % (
+                    nn, a, b, hk, abs(a - b), btk, exk, bxk, n.tolist(), c, direction, refine, grid), [abs(a - b), exk], [btk, bxk]))
+                break
         # each hit inside its bracketing interval: exact root and hit in the same sample interval
         for a, b in zip(th, roots):
             ka = int(np.searchsorted(tt, a, side="right") - 1)
@@ -263,7 +290,7 @@ def k_analytic(params):
     d_ang = math.acos(c / R) if abs(c) < R else 0.0
     slope = R * w * abs(math.sin(d_ang))          # |dg/dt| at every crossing
     for rung, nn in enumerate(params["ladder"]):
-        h = (t1 - t0) / nn * (1.16 if grid != "uniform" else 1.0)
+        h = (t1 - t0) / nn * ({"uniform": 1.0, "jagged": 3.0 / 1.44 * 1.02}.get(grid, 1.16))   # longest sample interval
         wh = w * h
         lin_g = R * wh * wh / 8.0
         if interp == "cubic" and grid == "uniform":
@@ -358,7 +385,7 @@ def cases(tier, seed):
             for d in (None, 1, -1):
                 for interp in ("linear", "cubic"):
                     for refine in ((0, 1) if tier == "quick" else (0, 1, 2)):
-                        for grid in ("uniform", "nonuniform"):
+                        for grid in ("uniform", "nonuniform", "jagged"):
                             out.append(("analytic", {"normal": n, "offset": c, "w": 1.0 + 0.1 * o[5], "direction": d, "interp": interp,
                                                      "refine": refine, "grid": grid, "t0": t0, "t1": t1, "ladder": ladder}))
     out.append(("batch", {"normal": [0, 1, 0, 0, 0, 0], "offset": 0.1}))
